@@ -15,12 +15,15 @@ ENGINES = [dict(name='vpop', c_sources=['vpop_h.c'], extract='Extract/Extract_vp
                 glue=('glue.ml', 'glue_z.ml'), accepts=lambda c: c[:3] in ('c1 ', 'c2 ', 'c3 ', 'c4 ')),
            dict(name='cdb', c_sources=['cdb_h.c'], extract='Extract/Extract_cdb.v', driver='cdb_driver.ml',
                 glue=('glue.ml', 'glue_z.ml'), accepts=lambda c: c[:3] in ('d1 ', 'd2 ', 'a1 '))]
-RULE = ('c1 cases = user_exists() on (users/cdb records, domain, domain directory layout, control/vpopbounce, local part, bytes following the local '
+RULE = ('engine vpop: c1 cases = user_exists() on (users/cdb records, domain, domain directory layout, control/vpopbounce, local part, bytes following the local '
         'part in memory); layouts are derived from the local part: each documented form present / absent / present only under a '
         'near-miss name (dots not mapped, prefix cut one byte early or late, prefix reaching into the domain) / failing with an '
         'injected errno; local parts: plain, with dots and dashes, ".", "..", with "/", quoted, lengths 239..257 around NAME_MAX; '
         'c2 cases (a quarter) = the real addrparse() on RCPT TO:<local@domain> with unquoted local parts in mixed case over the same kind of tree; '
-        'non-trivial = accepted, or at least three names were looked up; distinct by case text')
+        'c3 = sequences of user_exists() calls on one struct userconf (descriptor accounting); c4 = RCPT TO:<local@[ip]> with the literal equal / unequal to the local address, IPv4 and tagged IPv6; '
+        'engine cdb: d1 = cdb_seekmm() / d2 = vget_dir() on raw file bytes under a mapping that ends at PROT_NONE address space: valid databases (colliding hashes, duplicate keys, keys with NUL, empty keys), '
+        'a deterministic sweep that sets every 32 bit field the lookup touches (table pointer, slot count, slot hash, record pointer, key / data length) to every boundary value and cuts the file at every structure boundary +-1, random mutations; a1 = Gallina cdb_make against a C cdbmake, every key looked up; '
+        'non-trivial = accepted, or at least three names were looked up (vpop) / found, EINVAL, a path or an error (cdb); distinct by case text')
 TRUSTED_BASE = [
     'Coq 8.16.1 kernel (coqc; coqchk in thorough); vm_compute only for facts about the generated constant lists and the non-vacuity example',
     'axioms: none (Print Assumptions: Closed under the global context)',
@@ -28,13 +31,15 @@ TRUSTED_BASE = [
     'hand-written model coq/Model/Vpop.v tied to vpop.c by the correspondence run (differential testing, bounded by the generator)',
     'file system abstraction: one lookup relative to the domain directory depends only on the name (fs : name -> entry); fs_of_layout (".", ".." are directories, "" is ENOENT, > NAME_MAX is ENAMETOOLONG) is checked against the real kernel by the correspondence run',
     'extraction with ExtrOcamlBasic only; ocaml/glue.ml, glue_z.ml, vpop_driver.ml (case parsing / printing)',
+    'C harness harness/cdb_h.c: #include of lib/cdb.c and vpop.c with mmap()/munmap() redirected to a private copy of the file that ends at a page boundary followed by > 4 GiB of PROT_NONE address space; a C cdbmake for a1',
     'C harness harness/vpop_h.c: #include of vpop.c, getfile.c, cdb.c, control.c, mmap.c, dns_helpers.c, addrsyntax.c, addrparse.c; tarpit()/net_writen()/netnwrite() replaced by recorders; openat()/open() inside vpop.c redirected by macro (logging, errno injection); err_control()/err_control2() return 0; cdb file written by the harness; gcc 12 -O1 ASan+UBSan vs. production build',
 ]
 ASSUMPTIONS = [
     'the local part and the domain contain no NUL (both come from strlen-delimited strings in addrparse)',
     'err_control()/err_control2() return 0 (the 421 line could be written), so hard lookup failures return -EDONE',
     'a fresh struct userconf per call (smtp_rcpt calls userconf_init before addrparse)',
-    'lib/cdb.c is exercised (real cdb files) but not modelled: the model takes the record list; hash collisions and malformed cdb files are outside the theorem',
+    'users/cdb: C13_exists is stated for the record list (oracle) and, as C13_exists_file, for the bytes of the file (well-formed constant database, Spec/CdbSpec.v); mmap()/munmap()/fstat()/open() themselves are outside the model (an mmap failure is an errno path that is not modelled); the mapping is exactly st_size bytes (stricter than the kernel, which pads the last page with zeros)',
+    'keys are 7 bit (domains): cdb_hash() takes plain char and differs from the file format for bytes >= 128',
     'read() on .qmail-default returns min(2*strlen(vpopbounce), size) bytes in one call',
     'C13_reply: the address is one addrsyntax() accepts as full address (result 3) and its domain is in rcpthosts; addrsyntax()/finddomain() themselves belong to C14/C16 and are only exercised here (unquoted local parts)',
 ]
@@ -342,9 +347,9 @@ LEVEL_TEXT = ('Machine-checked Coq theorems over an executable model of user_exi
               'for every function from names to directory entries, every vpopbounce setting and every local part: the result is positive only if '
               'one of the five documented forms exists (1 / 4 / 2 by form), 0 only if none does, negative only if a lookup failed for another '
               'reason than non-existence; every name opened relative to the domain directory is a single component other than "." and "..", and '
-              'the user directory handle is an entry of the domain directory; addrparse() answers 0 with "550 5.1.1 ..." and accepts anything positive.  Literals, flags, return codes and errno classes are regenerated '
+              'the user directory handle is an entry of the domain directory; cdb_seekmm()/vget_dir() never read outside the mapping for any file content and return the first record of a key on well-formed databases (so C13_exists also holds with users/cdb as bytes); a reused struct userconf gives the same answers and loses no descriptor; addrparse() answers 0 with "550 5.1.1 ..." and accepts anything positive.  Literals, flags, return codes and errno classes are regenerated '
               'from vpop.c on every run; the model is tied to the C by a differential run on real directory trees under ASan.')
 LEVEL_NOTE = ('Trusted: Coq kernel, translator regexes, extraction (ExtrOcamlBasic), harness, generator quality of the correspondence run, the '
               'name->entry abstraction of the kernel. lib/cdb.c and the mapping of the result to "550 5.1.1" in addrparse.c are exercised / read, not modelled.')
-TECHNIQUE = 'Coq proof by case analysis over the probe sequence + induction over the dash scan; translator-regenerated constants; model-vs-C differential run on real directory trees with logged openat()'
+TECHNIQUE = 'Coq proof by case analysis over the probe sequence + induction over the dash scan; cdb: literal model over an arbitrary byte list, safety by bounds invariants, lookup correctness from a structural well-formedness predicate (probe chains), cdb_make proved well-formed by an insertion invariant; translator-regenerated constants; model-vs-C differential run on real directory trees with logged openat()'
 DESIGN_REF = 'DESIGN.md section 5, C13'
